@@ -59,6 +59,8 @@ pub enum Op {
     /// clone vector i in the host / in the plugin (the copy joins the pool and is grown later)
     VecCloneHost(u16),
     VecClonePlugin(u16),
+    /// insert into vector i in the host (growth of an exactly full foreign vector included)
+    VecInsertHost(u16, u8),
     ArcMake(u64),
     ArcClone(u16),
     ArcRead(u16),
@@ -249,6 +251,16 @@ fn body(pl: &Plugin, case: &Case, fl: &mut Flags) -> Result<(), Fail> {
                     fl.cross = true;
                 }
             }
+            Op::VecInsertHost(i, k) => {
+                if !vecs.is_empty() {
+                    let i = pick(*i, vecs.len());
+                    let at = if vecs[i].1.is_empty() { 0 } else { *k as usize % (vecs[i].1.len() + 1) };
+                    vecs[i].0.insert(at, 4242 + *k as u64);
+                    vecs[i].1.insert(at, 4242 + *k as u64);
+                    ensure!(&vecs[i].0[..] == &vecs[i].1[..], "C05:result", "{when}: vector differs after an insert in the host");
+                    fl.cross = true;
+                }
+            }
             Op::VecCloneHost(i) => {
                 if !vecs.is_empty() {
                     let i = pick(*i, vecs.len());
@@ -394,6 +406,7 @@ fn op_strategy() -> impl Strategy<Value = Op> {
         2 => any::<u16>().prop_map(Op::VecDropHost),
         2 => any::<u16>().prop_map(Op::VecCloneHost),
         2 => any::<u16>().prop_map(Op::VecClonePlugin),
+        3 => (any::<u16>(), any::<u8>()).prop_map(|(i, k)| Op::VecInsertHost(i, k)),
         2 => any::<u64>().prop_map(Op::ArcMake),
         2 => any::<u16>().prop_map(Op::ArcClone),
         2 => any::<u16>().prop_map(Op::ArcRead),
